@@ -3,12 +3,16 @@
   Property theorems only (serializer models; decoding the written bytes independently of
   protobom's readers is the Go-side oracle of the streams `spdx` and `cdx`). CycloneDX: every node
   is emitted, on forests exactly once (`cdx_forest_each_node_exactly_once`), containment is nesting,
-  dependency entries name known nodes only (`cdx_no_dangling_dependency`).
+  dependency entries name known nodes only (`cdx_no_dangling_dependency`). Identity attributes across
+  a change of format (`spdx_then_cdx_identity`, `cdx_then_spdx_identity`): a package node read from
+  one format and written in the other keeps identifier, name, version, the hashes and the package
+  identifiers both formats support.
 -/
 import Protobom.Proofs.Spdx
 import Protobom.Proofs.Cdx
 import Protobom.Proofs.Nest
 import Protobom.Proofs.NestNodes
+import Protobom.Proofs.CrossFormat
 
 namespace Protobom.C03
 open Protobom Gen
@@ -165,5 +169,59 @@ theorem cdx_forest_each_node_exactly_once (d : Document) (md : Metadata) (nl : N
 theorem cdx_no_dangling_dependency (known : String → Bool) (edges : List Edge) (p1 : Cdx.Pass1)
     (h : Cdx.pass1 known edges = .ok p1) : ∀ st ∈ p1.deps, known st.1 = true ∧ ∀ t ∈ st.2, known t = true :=
   Cdx.pass1_deps_known known edges p1 h
+
+end Protobom.C03
+
+namespace Protobom.C03
+open Protobom Gen
+
+/-! ### identity attributes of documents obtained by parsing the other format -/
+
+/-- **SPDX 2.3 first, CycloneDX 1.`v` second**: a package node that was written as SPDX and read
+    back, then written as CycloneDX and read back, has the identifier, the name and the version it
+    started with (`0.0.0` is cyclonedx-go's text for a missing version below 1.4), its hash map over
+    the algorithms both formats have entry for entry, and its purl and CPE under their keys -/
+theorem spdx_then_cdx_identity (v : Nat) (n : Node) (hid : n.id ≠ "")
+    (hs : ∀ kv ∈ n.hashes, kv.1 ∈ Spdx.spdxHashes) (hc : ∀ kv ∈ n.hashes, kv.1 ∈ Cdx.cdxHashes)
+    (hnd : (n.hashes.map (·.1)).Nodup)
+    (hr : ∀ e ∈ Spdx.Node.refs n "ExternalReferences", e.typ ∈ Spdx.spdxRefTypes ∧ e.url ≠ "")
+    (hk : ∀ kv ∈ n.identifiers, kv.1 ∈ [1, 2, 3, 4]) (hnd' : (n.identifiers.map (·.1)).Nodup) :
+    let m := Cdx.rtNode v (Spdx.rtPkg n)
+    m.id = n.id ∧
+    Spdx.Node.str m "Name" = Spdx.Node.str n "Name" ∧
+    Spdx.Node.str m "Version" = (if v < 4 ∧ Spdx.Node.str n "Version" = "" then "0.0.0" else Spdx.Node.str n "Version") ∧
+    m.hashes = sortedByKey n.hashes ∧ (sortedByKey n.hashes).Perm n.hashes ∧
+    m.identifiers = Cdx.compIds ((n.identifiers.lookup 1).getD "")
+      ((n.identifiers.lookup 3).getD ((n.identifiers.lookup 2).getD "")) := by
+  obtain ⟨h1, h2, h3⟩ := Cross.spdx_then_cdx_scalars v n hid
+  exact ⟨h1, h2, h3, Cross.spdx_then_cdx_hashes v n hs hc hnd, sortedByKey_perm_self n.hashes hnd,
+    Cross.spdx_then_cdx_identifiers v n hr hk hnd'⟩
+
+/-- **CycloneDX 1.`v` first, SPDX 2.3 second**: identifier, name, version and the hash map -/
+theorem cdx_then_spdx_identity (v : Nat) (n : Node) (hid : n.id ≠ "")
+    (hs : ∀ kv ∈ n.hashes, kv.1 ∈ Spdx.spdxHashes) (hc : ∀ kv ∈ n.hashes, kv.1 ∈ Cdx.cdxHashes)
+    (hnd : (n.hashes.map (·.1)).Nodup) :
+    let m := Spdx.rtPkg (Cdx.rtNode v n)
+    m.id = n.id ∧
+    Spdx.Node.str m "Name" = Spdx.Node.str n "Name" ∧
+    Spdx.Node.str m "Version" = (if v < 4 ∧ Spdx.Node.str n "Version" = "" then "0.0.0" else Spdx.Node.str n "Version") ∧
+    m.hashes = sortedByKey n.hashes := by
+  obtain ⟨h1, h2, h3⟩ := Cross.cdx_then_spdx_scalars v n hid
+  exact ⟨h1, h2, h3, Cross.cdx_then_spdx_hashes v n hs hc hnd⟩
+
+/-- sorting a key-unique map by key does not change what a key is bound to: the purl / CPE /
+    hash value a consumer looks up in the map that came back is the one that was written -/
+theorem lookup_after_roundtrip (m : List (Int × String)) (hnd : (m.map (·.1)).Nodup) (k : Int) :
+    (sortedByKey m).lookup k = m.lookup k := lookup_sortedByKey m hnd k
+
+/-- non-vacuity: a node with two shared hash algorithms, a purl and a CPE 2.3 meets the premises -/
+def exCross : Node := { id := "pkg-a", typ := 0, attrs := Schema.nodeAttrs.map (fun fk =>
+  if fk.1 = "Hashes" then Val.imap [(3, "aa"), (1, "bb")]
+  else if fk.1 = "Identifiers" then Val.imap [(3, "cpe:2.3:a:b:c"), (1, "pkg:npm/a@1")]
+  else if fk.1 = "Name" then Val.str "a" else fk.2.zero) }
+
+example : exCross.id ≠ "" ∧ (∀ kv ∈ exCross.hashes, kv.1 ∈ Spdx.spdxHashes) ∧ (∀ kv ∈ exCross.hashes, kv.1 ∈ Cdx.cdxHashes) ∧
+    (exCross.hashes.map (·.1)).Nodup ∧ (∀ e ∈ Spdx.Node.refs exCross "ExternalReferences", e.typ ∈ Spdx.spdxRefTypes ∧ e.url ≠ "") ∧
+    (∀ kv ∈ exCross.identifiers, kv.1 ∈ [1, 2, 3, 4]) ∧ (exCross.identifiers.map (·.1)).Nodup := by decide
 
 end Protobom.C03
